@@ -58,3 +58,22 @@ package step
 //@   ensures forall s RunningStep :: s != self ==> forceclosed(s) == old(forceclosed(s))
 //@ func iface RunningStep.Close()
 //@   requires [no-lock-held-while-closing] nolocks()
+//
+// What the engine relies on from a lifecycle a provider returns: stage ids and dependency types are
+// not empty, declared outputs carry a schema. (Both providers build their lifecycles from
+// constants; this is assumed here, not yet proved on the providers.)
+//@ pred lifecycleOK(lc Lifecycle[LifecycleStageWithSchema]) = forall i int :: 0 <= i && i < len(lc.Stages) ==> lc.Stages[i].ID != "" && \
+//@     (forall n string :: indom(lc.Stages[i].NextStages, n) ==> lc.Stages[i].NextStages[n] != "") && \
+//@     (forall o string :: indom(lc.Stages[i].Outputs, o) ==> lc.Stages[i].Outputs[o] != nil)
+//@ func iface RunnableStep.Lifecycle(input)
+//@   ensures [assumed-lifecycle-shape] result1 == nil ==> lifecycleOK(result)
+//@ func iface RunnableStep.RunSchema()
+//@ func iface Registry.GetByKind(kind)
+//@   ensures (result1 == nil) != (result == nil)
+//@ func iface Provider.LoadSchema(inputs, workflowContext)
+//@   ensures (result1 == nil) != (result == nil)
+//@ func iface Provider.ProviderSchema()
+//@   ensures result != nil && fresh(result)
+//@ func iface Provider.RunProperties()
+//@ func iface Provider.Kind()
+//@ func iface Provider.Lifecycle()
